@@ -428,7 +428,10 @@ func ParseRange(s string) (start, end int64, ok bool) {
 	}
 	p0, err0 := strconv.ParseInt(p0s, 10, 64)
 	p1, err1 := strconv.ParseInt(p1s, 10, 64)
-	if p1 > 0 {
+	if p1 > 0 || p0 > 0 {
+		// The end is inclusive on the wire. Only "0-0" is ambiguous (it stands
+		// for the empty range at zero as well as for the first byte) and is
+		// read as empty; in particular "1-0" is the empty range at offset one.
 		p1++
 	}
 	return p0, p1, err0 == nil && err1 == nil
